@@ -65,6 +65,11 @@ class World:
         k2 = os.path.join(tmp, "kms_copy.py")
         shutil.copy(sl.kms_script(), k2)
         self.paths["@KMS2@"] = k2
+        # every signing party keeps its own copy of the KMS script beside its keys: without a context the key directory is the
+        # directory of the KMS script, and the copies have the same file name
+        for ph, ks in (("@KMSA@", self.KA), ("@KMSB@", self.KB)):
+            shutil.copy(sl.kms_script(), os.path.join(ks.dir, "basic_kms.py"))
+            self.paths[ph] = os.path.join(ks.dir, "basic_kms.py")
         zb = os.path.join(tmp, "zb", "zephyr")
         ncs = os.path.join(tmp, "zb", "modules", "lib", "suit-generator", "ncs")
         os.makedirs(zb, exist_ok=True)
@@ -105,7 +110,9 @@ class World:
             return self.paths[o]
         return o
 
-    def keys_of_ctx(self, ctx):
+    def keys_of_ctx(self, ctx, kms=None):
+        if ctx is None:
+            return {"@KMSA@": self.KA, "@KMSB@": self.KB}.get(kms)
         return {"@KA@": self.KA, "@KAJ@": self.KA, "@KB@": self.KB}.get(ctx)
 
     def table(self):
@@ -448,7 +455,7 @@ def expect(world, node, cfg, inh, calls, root=True):
         kid = int(cfg["key-id"], 0)
         call = {"script": inh["sign"], "key_name": cfg["key-name"], "key_id": kid, "alg": inh["alg"], "context": inh["ctx"], "kms_script": inh["kms"], "action": action}
         calls.append(call)
-        ks = world.keys_of_ctx(inh["ctx"])
+        ks = world.keys_of_ctx(inh["ctx"], inh["kms"])
         plan["sign"] = dict(call, keys=ks)
         if node.presigned and action == "error":
             plan["late_fail"] = "already signed, action error"
@@ -645,6 +652,42 @@ def tree_stream(ck, world, tmp, n_trees, faulty):
     return fails
 
 
+def party_config(ck, cfg, kms, root=True):
+    """gen_config's configuration for signing parties that keep script and keys together: no context anywhere, every node names the
+    KMS script of its party (or inherits it)"""
+    c = {k: v for k, v in cfg.items() if k not in ("context", "kms-script", "dependencies")}
+    mine = kms
+    if root or ck.rng.random() < 0.6:
+        mine = "@KMSA@" if (root or ck.rng.random() < 0.4) else "@KMSB@"
+        c["kms-script"] = mine
+    if "dependencies" in cfg:
+        c["dependencies"] = {n: party_config(ck, d, mine, False) for n, d in cfg["dependencies"].items()} if isinstance(cfg["dependencies"], dict) else cfg["dependencies"]
+    return c
+
+
+def party_stream(ck, world, tmp, n_trees):
+    """No context: the key directory of a node is the directory of ITS KMS script; the parties' scripts have the same file name."""
+    fails = []
+    counter = [0]
+    for i in range(n_trees):
+        node = build_tree(ck, world, 0, ck.rng.choice([2, 2, 3]), counter)
+        cfg = party_config(ck, gen_config(ck, world, node, 0, "eddsa", "@KA@"), None)
+        cfg["sign-script"] = "@W1@"
+        via_cli = i % 4 == 3
+        ok, out, calls, exn = run_tree(ck, world, tmp, node, cfg, {}, via_cli, f"party{i}")
+        why, plan = tree_verdict(world, node, cfg, ok, out, calls)
+        exp_calls = []
+        expect(world, node, cfg, {"sign": cfg.get("sign-script"), "kms": cfg.get("kms-script"), "alg": "eddsa", "ctx": None}, exp_calls)
+        failure = first_failure(plan)
+        if not why and not failure and calls != norm_calls(world, cfg, {}, exp_calls):
+            why = f"sign_envelope calls {calls} differ from the calls expected from the configuration {norm_calls(world, cfg, {}, exp_calls)}"
+        ck.count("parties", (i, json.dumps(cfg, sort_keys=True)), nontrivial=True,
+                 sample={"depth": tree_depth(node), "nodes": count_nodes(node), "configuration": cfg, "via": "cli" if via_cli else "lib", "expected": failure or "signed"})
+        if why:
+            fails.append(rec_tree(world, node, cfg, {}, why, "cli recursive" if via_cli else "recursive"))
+    return fails
+
+
 def tree_depth(n):
     return 0 if not n.children else 1 + max(tree_depth(c) for c in n.children.values())
 
@@ -667,7 +710,7 @@ def node_from_json(j):
 
 def rec_tree(world, node, cfg, envt, why, op):
     return {"input": {"op": op, "tree": node_to_json(node), "configuration": cfg, "environment": envt, "keys_pem": world.pems(),
-                      "note": "placeholders @KA@ @KB@ @KAJ@ (key directories / JSON context), @W1@ @W2@ (logging wrappers of the sign script), @KMS@ @KMS2@ @ZB@ are materialised at run time"},
+                      "note": "placeholders @KA@ @KB@ @KAJ@ (key directories / JSON context), @W1@ @W2@ (logging wrappers of the sign script), @KMS@ @KMS2@ @KMSA@ @KMSB@ (the parties' copies of the KMS script beside their keys) @ZB@ are materialised at run time"},
             "observed": why, "expected": EXPECTED}
 
 
@@ -730,6 +773,7 @@ def run(tier, seed):
         failing += keytype_stream(ck, world)
         failing += tree_stream(ck, world, tmp, 1500 if ck.thorough else 300 if ck.deep else 40, False)
         failing += tree_stream(ck, world, tmp, 600 if ck.thorough else 200 if ck.deep else 40, True)
+        failing += party_stream(ck, world, tmp, 200 if ck.thorough else 60 if ck.deep else 12)
         failing += getattr(world, "presign_failures", [])[:3]
         ck.cov["rule"] = (
             "streams: corpus (regression witnesses F1: recursive signing of the test-suite's root envelope; F7: omit-signing without key-name / key-id, at the "
